@@ -53,11 +53,7 @@ MANIFEST = dict(
          "3-way differential (impl / extracted model / vm_compute) on data BUILT from a wire encoding (all 1.1 M scalar values "
          "exhaustively in the thorough tier) and on source texts, with an independent Python oracle on the implementation's output.",
     design="DESIGN.md section 5 C10",
-    note="Evaluating (quote d) returns d: proved (C10_quote_eval_vm, through the C01 fragment theorem: expansion, compilation, the instruction "
-         "run, HALT) on every machine satisfying the invariant minv - which includes every freshly created machine - for every heap datum d, "
-         "up to the model's fuel for the final conversion of the value (an explicit premise: the Rust conversion has no bound); the version "
-         "for the BOOTED machine (C10_quote_eval_vm_stmt) stays OPEN only because minv of the booted machine is not proved; it is checked by "
-         "wire interface 8 on every generated datum. OPEN as well: the three std float statements "
+    note="Evaluating (quote d) returns d: proved through the C01 fragment theorem (expansion, compilation, the instruction run, HALT) on the BOOTED machine and on every state of a session (C10_quote_eval_vm_booted, C10_quote_eval_vm_session; the machine invariant is proved by preservation, the boot is never evaluated), for every heap datum d, up to the model's own fuels (the conclusion is 'd, or out of model fuel': the Rust conversion has no bound); also checked by wire interface 8 on every generated datum. OPEN as well: the three std float statements "
          "C10_std_roundtrip_stmt, C10_display_point_stmt, C10_no_inner_minus_stmt (= the OPEN statements of C16, hypotheses of "
          "C10_write_read / C10_float_atom; a datum without floats does not use them in substance). Known finding prefix-path-symbol (open, not small: parse_number accepts any token after a number "
          "prefix). Trusted: Coq kernel; hand-written model tied by sampling correspondence (exhaustive over scalar values in "
